@@ -94,6 +94,8 @@ type wPause struct {
 	AtMs int `json:"at_ms,omitempty"`
 	// AgainAfterMs > 0: a second pause of the same length begins that long after the first one ended.
 	AgainAfterMs int `json:"again_after_ms,omitempty"`
+	// AgainForMs > 0: the second pause lasts that long instead.
+	AgainForMs int `json:"again_for_ms,omitempty"`
 }
 
 // wMitm replaces one field of the Line-th protocol line of a direction (0-based, counting lines that
@@ -182,7 +184,7 @@ func mitmFilter(m *wMitm, dir string) func([]byte) []byte {
 type wMsgFault struct {
 	Dir  string `json:"dir"`
 	K    int    `json:"k"`
-	Kind string `json:"kind"` // silence | werr
+	Kind string `json:"kind"` // silence | werr | slow (the k-th write of that direction takes 1.2 s: a congested link, a full pty buffer)
 }
 
 // wLocalFault is a local I/O failure at the k-th call of an R9 hook on one side.
@@ -713,6 +715,16 @@ func buildWorld(p wParams) *world {
 	}
 	msgFilter := func(dir string) func([]byte) []byte {
 		for _, f := range p.MsgFaults {
+			if f.Dir == dir && f.Kind == "slow" {
+				k, n := f.K, 0
+				return func(b []byte) []byte {
+					n++
+					if n == k {
+						vs.Sleep(1200 * time.Millisecond) // the writer is held in this write
+					}
+					return b
+				}
+			}
 			if f.Dir == dir && f.Kind == "silence" {
 				k, n := f.K, 0
 				return func(b []byte) []byte {
@@ -1302,7 +1314,11 @@ func (w *world) installEvents() {
 			w.pauseLog = append(w.pauseLog, pauseRec{Begin: vs.Elapsed(), C2SLen: w.clientSentLen(), t: t})
 			idx := len(w.pauseLog) - 1
 			t.pauseTransferringFiles()
-			vs.AddTimer(time.Duration(pa.ForMs)*time.Millisecond, func() {
+			forMs := pa.ForMs
+			if !again && pa.AgainForMs > 0 {
+				forMs = pa.AgainForMs
+			}
+			vs.AddTimer(time.Duration(forMs)*time.Millisecond, func() {
 				// the prompt handler: continue (only if the transfer is still the current one)
 				vs.Peek(func() {
 					w.pauseLog[idx].End = vs.Elapsed()
